@@ -10,6 +10,7 @@ pub mod gencrate;
 pub mod genrun;
 pub mod tracerun;
 pub mod fuzzrun;
+pub mod growrun;
 pub mod lockstep;
 pub mod fuzzlock;
 pub mod fdiff;
